@@ -19,8 +19,9 @@ import (
 // the GSUB/GPOS table and applies every lookup on its own to a short glyph sequence.  The Lean side
 // answers every non-model total.* line with the constant "total"; a panic is a violation.
 // `total.lookuplist-apply table=gsub bytes=00010000000a000c000e00000000000100040007000000010008000119a0000000080007000100000000`
-// panics with "unreachable": the extension record resolves (uint16 wrap of 10*6560+7 = 71) to
-// another extension record, which readLookupList leaves in the lookup (finding C02-lookuplist-ext-ext).
+// panicked with "unreachable" before /repo 8867078 (finding C02-lookuplist-ext-ext: the extension
+// record resolved, through the uint16 wrap of 10*6560+7 = 71, to another extension record, which
+// readLookupList left in the lookup); the repaired dispatchers refuse the table (decode error).
 func totalLookuplistApply(table string, data []byte, gids []int) string {
 	return guard(func() string {
 		var tp gtab.Type = gtab.TypeGsub
